@@ -127,8 +127,12 @@ func elemSource(v ssa.Value) ssa.Value {
 // guardsAt: predicate names established (true-branch facts) at block b about element value e:
 // calls of method/function named N whose receiver/first argument derives from e (directly or via a field of e).
 func guardsAt(b *ssa.BasicBlock, e ssa.Value) map[string]bool {
+	return guardsFromFacts(normFacts(condFacts(b)), e)
+}
+
+func guardsFromFacts(facts []condFact, e ssa.Value) map[string]bool {
 	out := map[string]bool{}
-	for _, cf := range normFacts(condFacts(b)) {
+	for _, cf := range facts {
 		call, ok := cf.Cond.(*ssa.Call)
 		if ok && cf.True {
 			cc := &call.Call
@@ -151,6 +155,17 @@ func guardsAt(b *ssa.BasicBlock, e ssa.Value) map[string]bool {
 		if ex, ok := cf.Cond.(*ssa.Extract); ok && cf.True && ex.Index == 1 {
 			if lk, ok := ex.Tuple.(*ssa.Lookup); ok && lk.CommaOk && derivesFromElem(lk.Index, e, 3) && perCallMap(lk.X, 4) {
 				out["in-set"] = true
+			}
+		}
+		// … spelled as a small method on a named set type: `func (s keySet) has(e *T) bool { return s[key(e.F)] }`
+		if call, ok := cf.Cond.(*ssa.Call); ok && cf.True {
+			if sc := call.Call.StaticCallee(); sc != nil && sc.Blocks != nil && len(sc.Blocks) == 1 && len(sc.Params) == 2 && len(call.Call.Args) == 2 {
+				if ret, ok := lastInstr(sc.Blocks[0]).(*ssa.Return); ok && len(ret.Results) == 1 {
+					if lk, ok := ret.Results[0].(*ssa.Lookup); ok && lk.X == ssa.Value(sc.Params[0]) && derivesFromElem(lk.Index, sc.Params[1], 5) &&
+						derivesFromElem(call.Call.Args[1], e, 3) && perCallMap(call.Call.Args[0], 4) {
+						out["in-set"] = true
+					}
+				}
 			}
 		}
 		// … and membership in a list: slices.Contains(list, e.F)
@@ -197,6 +212,10 @@ func derivesFromElem(v, e ssa.Value, depth int) bool {
 			}
 		case *ssa.MakeInterface:
 			v = x.X
+		case *ssa.ChangeType:
+			v = x.X
+		case *ssa.Convert:
+			v = x.X
 		default:
 			return false
 		}
@@ -239,6 +258,15 @@ func (p *provEngine) compute(v ssa.Value) *sliceProv {
 			return nil
 		}
 		cp := *in
+		if g, ok := p.compactionGuards(x, in); ok {
+			cp.Guards = map[string]bool{}
+			for k := range in.Guards {
+				cp.Guards[k] = true
+			}
+			for k := range g {
+				cp.Guards[k] = true
+			}
+		}
 		return &cp
 	case *ssa.Phi:
 		var acc *sliceProv
@@ -333,6 +361,43 @@ func (p *provEngine) compute(v ssa.Value) *sliceProv {
 				}
 			}
 			return &out
+		}
+		if ci := describeCall(cc); ci.Pkg == "slices" && !cc.IsInvoke() && len(cc.Args) > 0 {
+			switch ci.Name {
+			case "Clone":
+				in := p.of(cc.Args[0])
+				if in == nil {
+					return nil
+				}
+				out := *in
+				out.Fresh = true
+				return &out
+			case "DeleteFunc":
+				// the kept elements are those for which the predicate answers false
+				in := p.of(cc.Args[0])
+				if in == nil {
+					return nil
+				}
+				if in.Unknown != "" {
+					return in
+				}
+				out := *in
+				out.Guards = map[string]bool{}
+				for k := range in.Guards {
+					out.Guards[k] = true
+				}
+				for k := range keptGuards(cc.Args[1]) {
+					out.Guards[k] = true
+				}
+				return &out
+			case "Compact", "CompactFunc", "Clip", "Grow":
+				in := p.of(cc.Args[0])
+				if in == nil {
+					return nil
+				}
+				cp := *in
+				return &cp
+			}
 		}
 		if sc := cc.StaticCallee(); sc != nil && p.c.inRepo(sc) {
 			sum := p.summary(sc, 3)
@@ -776,6 +841,24 @@ func perCallMap(v ssa.Value, d int) bool {
 		return len(x.Edges) > 0
 	case *ssa.ChangeType:
 		return perCallMap(x.X, d-1)
+	case *ssa.Call:
+		// a set built by a constructor: every return of the callee is a map it made itself
+		if sc := x.Call.StaticCallee(); sc != nil && sc.Blocks != nil && theCtx != nil && theCtx.inRepo(sc) {
+			rets := returnsOf(sc)
+			for _, ret := range rets {
+				if len(ret.Results) == 0 {
+					return false
+				}
+				rv := ret.Results[0]
+				if ct, ok := rv.(*ssa.ChangeType); ok {
+					rv = ct.X
+				}
+				if _, ok := rv.(*ssa.MakeMap); !ok {
+					return false
+				}
+			}
+			return len(rets) > 0
+		}
 	case *ssa.UnOp:
 		if al, ok := x.X.(*ssa.Alloc); ok {
 			st := cellStores(al)
@@ -794,4 +877,174 @@ func perCallMap(v ssa.Value, d int) bool {
 		return true
 	}
 	return false
+}
+
+// keptFactSets: for a predicate handed to slices.DeleteFunc, the facts that hold on each path on which it answers
+// false (the element is kept): facts on the way to the return plus the returned expression being false. The second
+// result is the predicate's element parameter.
+func keptFactSets(pred ssa.Value) ([][]condFact, ssa.Value) {
+	var fn *ssa.Function
+	switch x := pred.(type) {
+	case *ssa.MakeClosure:
+		fn, _ = x.Fn.(*ssa.Function)
+	case *ssa.Function:
+		fn = x
+	}
+	if fn == nil || fn.Blocks == nil || len(fn.Params) == 0 {
+		return nil, nil
+	}
+	e := ssa.Value(fn.Params[len(fn.Params)-1])
+	isTrue := func(v ssa.Value) (bool, bool) {
+		k, ok := v.(*ssa.Const)
+		if !ok || k.Value == nil {
+			return false, false
+		}
+		return k.Value.String() == "true", true
+	}
+	var sets [][]condFact
+	for _, ret := range returnsOf(fn) {
+		if len(ret.Results) != 1 {
+			return nil, nil
+		}
+		rv := ret.Results[0]
+		if t, isK := isTrue(rv); isK {
+			if !t {
+				sets = append(sets, normFacts(condFacts(ret.Block())))
+			}
+			continue
+		}
+		if ph, ok := rv.(*ssa.Phi); ok {
+			// short-circuit forms: each edge is either a constant or the last operand
+			for i, ev := range ph.Edges {
+				facts := edgeFacts(ph.Block().Preds[i], ph.Block())
+				if t, isK := isTrue(ev); isK {
+					if !t {
+						sets = append(sets, normFacts(facts))
+					}
+					continue
+				}
+				sets = append(sets, normFacts(append(facts, condFact{ev, false, nil})))
+			}
+			continue
+		}
+		sets = append(sets, normFacts(append(condFacts(ret.Block()), condFact{rv, false, nil})))
+	}
+	return sets, e
+}
+
+// keptGuards: predicates that hold for every element a `slices.DeleteFunc(s, pred)` keeps.
+func keptGuards(pred ssa.Value) map[string]bool {
+	sets, e := keptFactSets(pred)
+	var acc map[string]bool
+	for _, facts := range sets {
+		g := guardsFromFacts(facts, e)
+		if acc == nil {
+			acc = g
+		} else {
+			acc = intersect(acc, g)
+		}
+	}
+	if acc == nil {
+		return map[string]bool{}
+	}
+	return acc
+}
+
+// compactionGuards recognises the in-place filter over a private copy:
+//
+//	out := slices.Clone(in); n := 0
+//	for _, e := range out { if keep(e) { out[n] = e; n++ } }
+//	out = out[:n]
+//
+// The re-slice out[:n] then holds exactly the elements stored under the keep condition: every store into the copy is
+// at index n, n is incremented by one right after it and nowhere else, and n is the slice's upper bound.
+func (p *provEngine) compactionGuards(sl *ssa.Slice, base *sliceProv) (map[string]bool, bool) {
+	if sl.Low != nil || sl.High == nil || !base.Fresh {
+		return nil, false
+	}
+	cnt, ok := sl.High.(*ssa.Phi)
+	if !ok {
+		return nil, false
+	}
+	// the counter: phi(0, n+1)
+	var incs []*ssa.BinOp
+	for _, e := range cnt.Edges {
+		if k, isK := constInt(e); isK && k == 0 {
+			continue
+		}
+		// through inner phis (if/else merge inside the loop body)
+		work := []ssa.Value{e}
+		seen := map[ssa.Value]bool{}
+		for len(work) > 0 {
+			v := work[len(work)-1]
+			work = work[:len(work)-1]
+			if seen[v] || v == ssa.Value(cnt) {
+				continue
+			}
+			seen[v] = true
+			switch y := v.(type) {
+			case *ssa.Phi:
+				work = append(work, y.Edges...)
+			case *ssa.BinOp:
+				if k, isK := constInt(y.Y); y.Op == token.ADD && isK && k == 1 && (y.X == ssa.Value(cnt) || seen[y.X]) {
+					incs = append(incs, y)
+				} else {
+					return nil, false
+				}
+			default:
+				return nil, false
+			}
+		}
+	}
+	if len(incs) == 0 {
+		return nil, false
+	}
+	refs := sl.X.Referrers()
+	if refs == nil {
+		return nil, false
+	}
+	var acc map[string]bool
+	nStores := 0
+	for _, ref := range *refs {
+		ia, ok := ref.(*ssa.IndexAddr)
+		if !ok {
+			continue
+		}
+		for _, r2 := range *ia.Referrers() {
+			st, ok := r2.(*ssa.Store)
+			if !ok || st.Addr != ssa.Value(ia) {
+				continue
+			}
+			// stored at the counter, and the counter is bumped in the same block
+			idxOK := ia.Index == ssa.Value(cnt)
+			bumped := false
+			for _, inc := range incs {
+				if inc.Block() == st.Block() {
+					bumped = true
+				}
+			}
+			if !idxOK || !bumped {
+				return nil, false
+			}
+			src := elemSource(st.Val)
+			if src == nil {
+				return nil, false
+			}
+			sp := p.of(src)
+			if sp == nil || sp.Unknown != "" || sp.Root != base.Root {
+				return nil, false
+			}
+			g := guardsAt(st.Block(), st.Val)
+			if acc == nil {
+				acc = g
+			} else {
+				acc = intersect(acc, g)
+			}
+			nStores++
+		}
+	}
+	if nStores == 0 || nStores != len(incs) {
+		return nil, false
+	}
+	return acc, true
 }
